@@ -320,7 +320,10 @@ func runCase(c *Case, d *driver, opts runOpts) (res caseResult) {
 	prevSnap := im.vt.Snap()
 	var stepBytes []byte
 	diverged := map[string]bool{} // projections and rows on which the two sides already disagree
+	sOff := false                 // the run-level comparison has been given up for this case
+	var lastModelS map[string]string
 	compare := func(cmd string, tags *string) bool {
+		lastModelS = nil
 		evFrom, wrFrom := im.evMark, im.wrMark
 		pre := prevSnap
 		io, post := im.observe(false)
@@ -338,6 +341,7 @@ func runCase(c *Case, d *driver, opts runOpts) (res caseResult) {
 			if len(mo.tags) > 0 {
 				*tags = strings.Join(mo.tags, ",")
 			}
+			lastModelS = mo.srows
 			if mo.X != "" {
 				addF(finding{Step: step, Kind: "framing", Clause: "G", Tags: *tags, Detail: mo.X + " " + io.G})
 				// the two sides no longer agree on where the sequences end, so the steps that follow
@@ -400,6 +404,24 @@ func runCase(c *Case, d *driver, opts runOpts) (res caseResult) {
 				// wrong notification or a newly differing row further on is still a finding, also
 				// when it is a consequence of this one)
 				res.nDiverge++
+			}
+		}
+		if useModel && !res.Diverged && !sOff && c.Mode == 0 && !c.Grid {
+			// the stored runs of every row the run-level model terminal changed in this step
+			// (lean/TM/SpanTerm.lean, writeString for a stretch of text) against the real rows
+			for key, want := range lastModelS {
+				var b, y int
+				fmt.Sscanf(key, "%d %d", &b, &y)
+				if b < 0 || b > 1 || y < 0 || y >= len(post.Screens[b].Rows) {
+					continue
+				}
+				row := &post.Screens[b].Rows[y]
+				if got := fmt.Sprintf("%d:%s", row.Cached, runsStr(row.Runs)); got != want {
+					addF(finding{Step: step, Kind: "diverge", Clause: "S", Tags: *tags,
+						Detail: fmt.Sprintf("stored runs of row %d of buffer %d: impl[%s] model[%s]", y, b, got, want)})
+					sOff = true
+					break
+				}
 			}
 		}
 		res.Tags = append(res.Tags, *tags)
